@@ -83,6 +83,14 @@ CHECKS = {
         "genuine ticket set and the delivered bytes are compared with the signed payload.",
         "Cannot rule out forgeries outside the mutation grammar (no cryptanalysis; ECDSA malleability not generated); trusts asn1tools decode/encode and python-ecdsa.",
     ),
+    "C05": (
+        "model-based history testing on 2..4 real secured stations over a simulated ether with a virtual clock; every emitted packet decoded and checked against the TS 103 097 profile",
+        "Emission/advance/join/leave histories drive real sign and verify services end to end; a knowledge model (who holds whose ticket, who asked "
+        "whom) predicts for every message and receiver whether it must be accepted, and obliges certificate inclusion after 1 s or after a peer's "
+        "inline request (the two-exchange P2PCD bound); each emitted EtsiTs103097Data is decoded independently and compared with the CAM/VAM, DENM "
+        "and generic profiles (signer choice and value, mandatory/forbidden header fields, generation time and location, signed payload, signature).",
+        "Sampled histories (<= 40 steps, <= 4 stations); certificate inclusion checked one-directionally; full mesh; trusts asn1tools + python-ecdsa.",
+    ),
 }
 
 NOT_APPLICABLE = {
